@@ -1080,3 +1080,14 @@ func (r *RefFS) DumpHex() string {
 	rec("/", r.root)
 	return sb.String()
 }
+
+// Peek is Lstat without logging, gates or faults (for oracles).
+func (r *RefFS) Peek(p string) (os.FileInfo, error) {
+	r.mu.Lock()
+	defer r.mu.Unlock()
+	n, _, _, _, e := r.resolve(p, false)
+	if e != 0 {
+		return nil, perr("lstat", p, e)
+	}
+	return infoOf(baseName(p), n), nil
+}
